@@ -13,6 +13,21 @@ CLAIMED = {
     note="Trusted: propagate-by-default summaries for library calls (results and written-through arguments), net/url.Parse rejecting control characters and quoting its input in errors, x/net/html copying tag names/attribute keys verbatim, ansi.Scrub's predicate (unicode.IsControl) being the right class. Not decided: terminal-specific interpretation of printable code points.",
     technique="static interprocedural taint (value-flow) analysis over SSA with call/return matching; sanitiser-before-sink",
     ref="DESIGN.md §4 C01"),
+  "C03": dict(
+    text="Static path/dominance analysis of jtp.Get and its helpers over SSA: every return of the fetcher is classified (error / cache hit / forwarded recursive result / success) and the success return is shown to be dominated, in order, by the https test, the dial, a checked status-line parse, a status whitelist within 200..203 on every enumerated path, a checked validateHeaders on the request's own tolerated list, and a checked JSON decode of the same stream into the very map returned, with the frame's own URL as source. The redirect budget is shown to strictly decrease under a non-exhaustion guard (one dial and one write per frame, constant budget at call sites), Location is shown to be resolved against the issuing URL with missing Location an error, the content-type rule (at least one tolerated, none untolerated) is checked on validateHeaders' flag protocol, the status regexp's shape is checked with regexp/syntax, and the cache is shown to be keyed by every request-shaping parameter and never to store an outcome with a possibly non-nil error. These are all-paths statements about the code, so they cover every response byte stream and redirect graph.",
+    note="Trusted: regexp, encoding/json, net/url, lru semantics. Not decided: that the header regexps recognise exactly the HTTP grammar; JSON decoding itself; LRU eviction; behaviour under concurrent identical fetches (singleflight).",
+    technique="static must-pass-through (dominance + path enumeration) and table/shape rules over SSA",
+    ref="DESIGN.md §4 C03"),
+  "C04": dict(
+    text="Static who-may-call, string-template and provenance rules: the whole module is scanned for call sites into network packages (net, crypto/tls, net/http, ... and dynamic Write invokes that VTA resolves to a connection) and they are shown to be exactly the single dial, single Write, Close and deadline calls of jtp.Get; the written bytes are symbolically flattened and compared with the request template over the frame's own URL and Accept value; the dial is shown to be TLS with default verification to JoinHostPort(link.Hostname(), link.Port()|443) under link.Scheme == https; a backward provenance walk over the value-flow graph shows that every *url.URL that can reach jtp.Get is produced by url.Parse / ResolveReference or a literal with constant path parts and an Encode()d query. Covers every URL and handle because it constrains how request bytes can be built at all.",
+    note="Trusted: net/url's escaping and rejection of control characters; a host containing control characters cannot be dialled; crypto/tls verifies with a nil config. Not decided: what the TLS stack itself sends.",
+    technique="static call-site inventory (who-may-call), symbolic string template evaluation, backward provenance over the value-flow graph",
+    ref="DESIGN.md §4 C04"),
+  "C05": dict(
+    text="Static typestate and error-discipline analysis: for every connection value obtained from net/crypto/tls, every Write/Read/hand-off is shown to be dominated by a Set*Deadline call on that value whose argument is derived (backward value-flow) from time.Now() and config.Parsed.Network.Timeout and which is not renewed in a loop; for all ~210 error-returning calls in jtp, client, object, pub and mime the error is shown to be returned, wrapped, converted to a failure item, stored beside its value or classified, and the accompanying values to be used only where the error is known nil (branch facts) or to travel with it; every NewFailure argument is shown non-nil. An all-paths argument: it holds for every cut point and stall stage because no path can read without a deadline or drop an error.",
+    note="Trusted: net.Conn deadline semantics, json.Decoder rejecting truncated objects. Not decided: wall-clock bounds, kernel/TLS behaviour, non-positive configured timeouts (C19).",
+    technique="static typestate (deadline-before-I/O dominance) + error-flow discipline over SSA with branch facts",
+    ref="DESIGN.md §4 C05"),
   "C08": dict(
     text="Whole-program static lock-state dataflow (held / caller's / not held, defer-aware) over go/ssa with the VTA call graph, plus an effects (write-set) analysis of fan-out goroutines: every access to UI state, every emitted frame and every render-cache write is shown to happen with State.m held on every path; lock pairing, non-reentrancy, WaitGroup balance, pairwise disjoint write sets of concurrently running closures and read-only sharing of documents/configuration are decided for every function of the module. All paths and all schedules are covered because the rule is a must-analysis over the code, not a sample of executions.",
     note="Trusted: go/types+go/ssa+VTA (x/tools v0.29.0), sync primitives, lru.Cache and singleflight.Group being internally synchronised, library callbacks being synchronous. Not decided: liveness under real schedulers, races inside dependencies, the deliberate lock hold on a failing sub-command.",
